@@ -133,6 +133,60 @@ def correspondence(ctx):
             C.rmtree(base)
     equal_tips(ctx, r)
     big_index(ctx, r)
+    adjacent_results(ctx, r)
+
+
+def adjacent_results(ctx, r):
+    """the dump folder already holds the COMPLETE results of an earlier run over the range just below (`…-0-(s-1).csv`, every
+    callback's) and of one over the same range: a run with --start s must produce what it produces in an empty folder, and must
+    leave those earlier files as they were"""
+    for cb in ("unspentcsvdump", "balances", "csvdump"):
+        for rep in range(ctx.n(2, 6)):
+            coin = ["bitcoin", "litecoin"][rep % 2]
+            from .. import gen_history as GH
+            blocks = GH.random_history(r, coin, 7)
+            T = len(blocks) - 1
+            st = r.randrange(1, T)
+            base = K.Scenario(coin=coin, callback=cb)
+            GC.simple_layout(base, blocks)
+            fresh = K.Scenario(coin=coin, callback=cb, start=st)
+            fresh.kvs, fresh.files = base.kvs, base.files
+            ref = fresh.run_impl()
+            scratch = C.scratch()
+            try:
+                d, dump = os.path.join(scratch, "data"), os.path.join(scratch, "dump")
+                base.write_dir(d)
+                os.makedirs(dump)
+                earlier = {}
+                for cb0 in ("unspentcsvdump", "balances", "csvdump"):
+                    for (s0, e0) in ((0, st - 1), (st, None)):
+                        if s0 == 0 and e0 == 0:
+                            continue       # a range needs start < end
+                        e = K.Scenario(coin=coin, callback=cb0, start=s0, stop=e0)
+                        e.kvs, e.files = base.kvs, base.files
+                        rr = e.run_impl(datadir=d, dump=dump)
+                        earlier.update(rr.final_files())
+                res = fresh.run_impl(datadir=d, dump=dump)
+            finally:
+                C.rmtree(scratch)
+            ctx.mark(("adjacent", cb, rep), True)
+            ctx.families["adjacent-results"] += 1
+            ctx.traces += 1
+            problems = []
+            mine = set(ref.final_files())
+            if res.exit != ref.exit:
+                problems.append(("exit", res.exit, ref.exit))
+            for n in mine:
+                a, b = res.files.get(n), ref.files.get(n)
+                same = a == b if cb == "csvdump" else (a is not None and sorted(a.splitlines()) == sorted(b.splitlines()))
+                if not same:
+                    problems.append(("result-depends-on-earlier-results", n, None))
+            for n, content in earlier.items():
+                if n not in mine and res.files.get(n) != content:
+                    problems.append(("earlier-result-changed", n, None))
+            if problems:
+                ctx.disagree("adjacent-results", {"callback": cb, "coin": coin, "start": st, "tip": T}, {"problems": [list(map(str, p)) for p in problems[:4]]},
+                             {"expected": "same result as in an empty dump folder; earlier results untouched"}, True, {"scenario": bb.scenario_dump(fresh), "observable": problems[0][0]})
 
 
 def big_index(ctx, r):
